@@ -17,7 +17,7 @@ RULE = ('tables: S(12)/S(16)+4x5+5x4 ∪ F ∪ P ∪ W as in C03, two labelings;
         'table (fast_generate_from, fcbo_dual, get_concepts, iterconcepts, context.lattice); '
         'non-trivial = lattice has > 2 concepts and is not a chain; distinct = distinct table')
 ASSUMPTIONS = ['R1 concept set (three cross-checked enumerations)']
-HITS = ('hit_canonicity_relevant',)
+HITS = ('hit_canonicity_relevant', 'hit_sibling_schedule')
 BUDGET = {'quick': 240, 'thorough': 3000}
 
 
@@ -60,6 +60,23 @@ def check_case(case, ctr):
             bad('concept-set', name, got)
     if V:
         return V
+    # interleaving with sibling contexts over the same labels (complemented table), created before
+    # and after the case context and before any of them is used
+    if case.labeling == space.ASC and case.variant == 'fresh' and case.n * case.m <= 16:
+        older, a, newer, iref = e1.sibling_schedule(case)
+        ctr['hit_sibling_schedule'] += 1
+        iexp = {(case.olab(e), case.plab(i)) for e, i in iref.concepts}
+        for c, want, who in ((a, exp, 'case-context'), (older, iexp, 'older-sibling')):
+            for name, gen in (('fast_generate_from', algorithms.fast_generate_from),
+                              ('fcbo_dual', algorithms.fcbo_dual)):
+                got = [(e.members(), i.members()) for e, i in gen(c)]
+                ctr['calls'] += 1
+                if len(got) != len(set(got)) or set(got) != want:
+                    V.append(common.violation(ID, 'concept-set-with-sibling-contexts',
+                                              case.ident(producer=name, which=who),
+                                              sorted(want), sorted(got)))
+                    return V
+        del older, a, newer
     # a returned list is the caller's: changing it must not change a later answer
     first = algorithms.get_concepts(ctx)
     if isinstance(first, list):
